@@ -31,6 +31,10 @@ def configs(tier):
         for kind in ("mixin", "light"):
             out.append(dict(kind=kind, n=3, cfg=dict(CFG, extras=False), hidden=False, d=0, persistent=P4, assertions=a,
                             judge="c01", reclimit=120, name="%s N=3 persistent bracket-hook vetoes (reclimit 120) A=%d" % (kind, a)))
+        # the class of the exception a hook raises is part of the alphabet (TreeError / LoopError subclasses)
+        for kind, fl in (("mixin", "tree"), ("light", "loop")) if tier == "quick" else [(k, f) for k in ("mixin", "light", "node") for f in ("tree", "loop", "value")]:
+            out.append(dict(kind=kind, n=3, cfg=dict(CFG, extras=False), hidden=False, d=1 if tier == "quick" else 2, persistent=P2,
+                            assertions=a, judge="c01", flavour=fl))
         if tier == "thorough":
             for kind in ("mixin", "light"):
                 out.append(dict(kind=kind, n=5, cfg=dict(CFG, extras=False, L=3), hidden=False, d=1, persistent=P2,
